@@ -173,7 +173,9 @@ func datumClause(r *vproto.Rng, f frame) string {
 		}
 		return "+datum=" + d + " +a=" + ff(a, 0) + " +rf=" + ff(f.rf, 6)
 	}
-	switch r.Intn(10) {
+	switch r.Intn(12) {
+	case 10, 11:
+		return mixedDatumClause(r)
 	case 0, 1, 2:
 		return "+datum=" + datums[r.Intn(len(datums))]
 	case 3, 4, 5:
@@ -195,6 +197,33 @@ func datumClause(r *vproto.Rng, f frame) string {
 		return "+ellps=WGS84 +datum=WGS84"
 	default:
 		return "+datum=" + datums[r.Intn(16)]
+	}
+}
+
+// mixedDatumClause: ONE definition carrying more than one datum specification. proj4js' deriveConstants lets
+// the row of a recognised `+datum=` name win over an explicit `+towgs84=` and over `+ellps=` (whatever the order
+// of the tokens); an unrecognised name / `none` leaves the explicit terms in force.
+func mixedDatumClause(r *vproto.Rng) string {
+	d := "+datum=" + datums[r.Intn(len(datums))]
+	n := 3
+	if r.Bool() {
+		n = 7
+	}
+	t := towgs84(r, n)
+	e := "+ellps=" + ellipsoids[r.Intn(len(ellipsoids)-1)] // not `sphere`
+	switch r.Intn(8) {
+	case 0, 1:
+		return d + " " + t
+	case 2, 3:
+		return t + " " + d
+	case 4:
+		return e + " " + d + " " + t
+	case 5:
+		return d + " " + e
+	case 6:
+		return "+datum=none " + e + " " + t
+	default:
+		return t + " " + e + " " + d
 	}
 }
 
@@ -523,7 +552,7 @@ func twin(r *vproto.Rng, def string, nodatum bool) (string, string) {
 				return strings.Join(toks, " "), "x0-1m"
 			}
 		case 7: // named datum against its own shift written out with one digit changed
-			if i := find("+datum="); i >= 0 && !nodatum {
+			if i := find("+datum="); i >= 0 && !nodatum && find("+towgs84=") < 0 {
 				if e, ok := datumExplicit[strings.ToLower(toks[i][7:])]; ok {
 					toks[i] = e
 					return strings.Join(toks, " "), "datum-explicit-digit"
@@ -578,6 +607,16 @@ func corpus(w *bufio.Writer) {
 	put(trLine([]string{"+proj=longlat +ellps=clrk80 +pm=paris +towgs84=-168,-60,320,0,0,0,0", wgs}, 0.5, 46))
 	put(trLine([]string{"+proj=longlat +ellps=clrk80 +pm=2.337229166667 +towgs84=-168,-60,320,0,0,0,0", wgs}, 0.5, 46))
 	put(trLine([]string{wgs, "+proj=lcc +lat_1=46.8 +lat_0=46.8 +lon_0=0 +k_0=0.99987742 +x_0=600000 +y_0=2200000 +a=6378249.2 +b=6356515 +towgs84=-168,-60,320,0,0,0,0 +pm=paris +units=m +no_defs", wgs}, 2.5, 47))
+	// one definition, two datum specifications: the row of a recognised +datum name wins over +towgs84 / +ellps
+	// (deriveConstants.js: `json.datum_params = datumDef.towgs84 ? ... : null`, `json.ellps = datumDef.ellipse`)
+	for _, m := range []string{"+datum=potsdam +towgs84=598.1,73.7,418.2,0.202,0.045,-2.455,6.7", "+towgs84=582,105,414 +datum=potsdam", "+datum=osgb36 +towgs84=375,-111,431",
+		"+ellps=intl +datum=hermannskogel +towgs84=-87,-98,-121", "+datum=WGS84 +towgs84=10,-20,30", "+datum=nzgd49 +ellps=GRS80", "+datum=none +ellps=bessel +towgs84=598.1,73.7,418.2",
+		"+datum=nonesuch +ellps=bessel +towgs84=598.1,73.7,418.2"} {
+		put(trLine([]string{wgs, "+proj=tmerc +lat_0=0 +lon_0=9 +k=1 +x_0=3500000 +y_0=0 " + m + " +units=m", "+proj=longlat " + m, wgs}, 10.25, 51.5))
+	}
+	put("parse | +proj=longlat +datum=potsdam +towgs84=598.1,73.7,418.2,0.202,0.045,-2.455,6.7")
+	put("parse | +proj=longlat +towgs84=1,2,3 +datum=rnb72")
+	put("trd2" + trLine([]string{"+proj=longlat +datum=osgb36 +towgs84=375,-111,431", wgs}, -1.5, 52.5)[2:])
 	// two projected systems on two different non-WGS84 datums (the two-hop route)
 	put(trLine([]string{"+proj=longlat +datum=potsdam", "+proj=tmerc +lat_0=0 +lon_0=9 +k=1 +x_0=3500000 +y_0=0 +datum=potsdam +units=m", "+proj=lcc +lat_1=49 +lat_2=44 +lat_0=46.5 +lon_0=3 +x_0=700000 +y_0=6600000 +ellps=GRS80 +towgs84=10,-20,30 +units=m", wgs}, 9.5, 50))
 	put(trLine([]string{"+proj=longlat +datum=osgb36", "+proj=longlat +datum=ire65"}, -6, 54))
